@@ -10,6 +10,7 @@ import checks_conc
 CHECKS = {
     "C01": checks_ns.check_c01,
     "C02": checks_ns.check_c02,
+    "C03": checks_ns.check_c03,
     "C04": checks_ns.check_c04,
     "C05": checks_ns.check_c05,
     "C06": checks_conc.check_c06,
